@@ -147,10 +147,12 @@ type c11Inst struct {
 	// at that moment; later calls on the rendered document must leave them as they were
 	base     *document.Document
 	baseDefs map[string]c11Def
-	eng      *document.TemplateEngine
-	onBase   int
-	onSib    int
-	sib      *document.Document
+	// ... and as they were when the template was loaded (a call on the base may change baseDefs later)
+	baseDefsAtLoad map[string]c11Def
+	eng            *document.TemplateEngine
+	onBase         int
+	onSib          int
+	sib            *document.Document
 	// load now, render later
 	late     bool
 	lateEng  *document.TemplateEngine
@@ -318,8 +320,10 @@ func (i *c11Inst) Apply(op int) (string, []rep.Violation) {
 			}
 			i.base, i.eng = i.doc, eng
 			i.baseDefs = map[string]c11Def{}
+			i.baseDefsAtLoad = map[string]c11Def{}
 			for k, v := range i.defs {
 				i.baseDefs[k] = v
+				i.baseDefsAtLoad[k] = v
 			}
 			i.doc = d
 			i.rend++
@@ -396,7 +400,13 @@ func (i *c11Inst) Deep() []rep.Violation {
 		} else if rp, _, errR := saveRead(d2); errR != "" {
 			out = append(out, rep.Violation{Sig: "save-failed|second-render", Clause: "save", What: errR})
 		} else {
-			out = append(out, c11CheckPackage(rp, i.baseDefs, "second-render-after-calls-on-the-first")...)
+			// after a call on the base itself the second render may show the base as it is now or as it was when
+			// the template was loaded (the statement does not say which); it must be one of the two
+			v := c11CheckPackage(rp, i.baseDefs, "second-render-after-calls-on-the-first")
+			if len(v) > 0 && i.onBase > 0 && len(c11CheckPackage(rp, i.baseDefsAtLoad, "second-render-after-calls-on-the-first")) == 0 {
+				v = nil
+			}
+			out = append(out, v...)
 		}
 	}
 	return out
